@@ -3,6 +3,7 @@ package main
 // check: the per-property deciding step (obligations vs. baseline, known findings, evidence).
 
 import (
+	"sync"
 	"encoding/json"
 	"os/exec"
 	"flag"
@@ -199,21 +200,29 @@ func checkMain(args []string) {
 	// before it is reported: a loaded machine must not turn into a false alarm. At most a few are retried so that a
 	// genuinely broken tree is still reported quickly.
 	if !*update {
-		retried := 0
+		var again []*OblResult
 		for _, r := range results {
-			if r.OK || r.O.Expect == "sat" || !base[oblClass(r.O.Name)] || retried >= 6 {
+			if r.OK || r.O.Expect == "sat" || !base[oblClass(r.O.Name)] || len(again) >= 12 {
 				continue
 			}
 			if r.R.Status != "timeout" && r.R.Status != "unknown" && r.R.Status != "error" {
 				continue
 			}
-			retried++
-			r2 := solve(r.Qry, dir, r.O.Name+"_retry", 6*secs, nil)
-			if r2.Status == "unsat" {
-				r.R = r2
-				r.OK = true
-			}
+			again = append(again, r)
 		}
+		var wg sync.WaitGroup
+		for _, r := range again {
+			wg.Add(1)
+			go func(r *OblResult) {
+				defer wg.Done()
+				r2 := solve(r.Qry, dir, r.O.Name+"_retry", 4*secs, nil)
+				if r2.Status == "unsat" {
+					r.R = r2
+					r.OK = true
+				}
+			}(r)
+		}
+		wg.Wait()
 	}
 	knownFor := map[string]*KnownFinding{}
 	for i := range known {
